@@ -135,11 +135,19 @@ def run(E: Engine, rep: Report, tier: str) -> dict:
                         n_sinks += 1
                         st = T.av_status(c, ab.av(a))
                         rep.check(st != "raw", "TAINT", f"{c.name}._hash_object|{norm(a)[:40]}", f"hash input is {st}", f"order-dependent value `{norm(a)}` reaches the hash unsorted: equality and static_hash would depend on the order of the coordinates", E.where(f, n))
+    from .. import sym as _symT
+    from .symutil import S as _ST, is_ as _isT, sh as _shT, unobj as _unT
+
     eq = P.lookup_method(traps, "__eq__")
     ok = False
+
+    def _canon_hash(t, who):
+        return t in (_symT.Pattern(f"{who}._safe_hash()").term, _symT.Pattern(f"{who}._hash_object.digest()").term)
+
     for f in eq:
-        for n in ast.walk(f.node):
-            if isinstance(n, ast.Compare) and "_safe_hash()" in norm(n.left) and "_safe_hash()" in norm(n.comparators[0]):
+        r_ = _ST(E, f).ret
+        for t in _symT.subterms(r_) if r_ is not None else []:
+            if t[0] == "cmp" and t[1] == "Eq" and ((_canon_hash(t[2], "self") and _canon_hash(t[3], "other")) or (_canon_hash(t[3], "self") and _canon_hash(t[2], "other"))):
                 ok = True
     rep.check(ok, "TAINT", "Traps.__eq__|compares-canonical-hash", "equality compares the canonical hashes", "Traps.__eq__ no longer compares _safe_hash() of both sides", E.where(eq[0]) if eq else "")
     sinks = [
@@ -176,23 +184,30 @@ def run(E: Engine, rep: Report, tier: str) -> dict:
         rep.check(not used_raw and bool(used_can), "TAINT", f"{c.name}.{mname}|uses-canonical-order", f"uses {sorted(set(used_can))}", f"{c.name}.{mname} uses order-dependent attribute(s) {sorted(set(used_raw))} where trap IDs / canonical order are required", E.where(f))
     # BaseRegister._validate_layout indexes the layout's canonical coords with the trap id
     vl = E.fn("pulser.register.base_register.BaseRegister._validate_layout")
-    ab = abstractor(E.flow(vl))
     ok = False
-    for n in ast.walk(vl.node):
-        if isinstance(n, ast.Subscript) and norm(n.slice) == "trap_id":
-            a = ab.av(n.value)
-            ok = any(r in ("register_layout.coords", "register_layout.sorted_coords") for r in a.roots)
-    rep.check(ok, "TAINT", "BaseRegister._validate_layout|layout.coords[trap_id]", "register coordinates are compared with the layout's canonical coordinate of the claimed trap id", "_validate_layout no longer indexes the layout's sorted coordinates with the trap id", E.where(vl))
+    for l in _ST(E, vl).logged("raise"):
+        for pat_ in ("Q_l.coords[Q_t] != Q_c", "Q_l.sorted_coords[Q_t] != Q_c"):
+            for m_ in _symT.find_all(l.cond, _symT.Pattern(pat_)):
+                lay_ok = _unT(m_["Q_l"]) == ("name", "register_layout")
+                t_, c_ = m_["Q_t"], m_["Q_c"]
+                # the trap id and the coordinate compared are the two items of one zip(<own coordinates>, trap_ids) element
+                paired = t_[0] == "item" and c_[0] == "item" and t_[1] == c_[1] and _symT.contains(t_[1], ("name", "trap_ids"))
+                ok = ok or (lay_ok and paired)
+    rep.check(ok, "TAINT", "BaseRegister._validate_layout|layout.coords[trap_id]", "register coordinates are compared with the layout's canonical coordinate of the claimed trap id", "_validate_layout no longer compares each of its coordinates with the layout's sorted coordinate at the claimed trap id", E.where(vl))
     # get_traps_from_coordinates looks up the rounded coordinate in _coords_to_traps
     gt = P.lookup_method(traps, "get_traps_from_coordinates")[0]
-    src = norm(gt.node)
-    abg = abstractor(E.flow(gt))
-    ok = "self._coords_to_traps[" in src
-    key_av = None
-    for n in ast.walk(gt.node):
-        if isinstance(n, ast.Subscript) and norm(n.value) == "self._coords_to_traps":
-            key_av = abg.av(n.slice)
-    rep.check(ok and key_av is not None and any(t.startswith("round:") and "COORD_PRECISION" in t for t in key_av.tags), "TAINT", "Traps.get_traps_from_coordinates|rounded-key-lookup", "looks the coordinate up after rounding to COORD_PRECISION", f"coordinate lookup is not keyed by the COORD_PRECISION-rounded coordinate ({key_av.show() if key_av else '?'})", E.where(gt))
+    Sgt = _ST(E, gt)
+    keys_ = [m_["Q_k"] for top in [Sgt.ret] + [l.value for l in Sgt.log if l.value is not None] if top is not None for m_ in _symT.find_all(top, _symT.Pattern("self._coords_to_traps[Q_k]"))]
+
+    def _rounded(k_):
+        for t in _symT.subterms(k_):
+            if t[0] == "call" and (t[1][1] if t[1][0] == "name" else t[1][2] if t[1][0] == "attr" else "") in ("round", "round_", "around"):
+                dec = dict(t[3]).get("decimals") or (t[2][1] if len(t[2]) > 1 else None)
+                if dec == ("name", "COORD_PRECISION"):
+                    return True
+        return False
+
+    rep.check(bool(keys_) and all(_rounded(k_) for k_ in keys_), "TAINT", "Traps.get_traps_from_coordinates|rounded-key-lookup", "looks the coordinate up after rounding to COORD_PRECISION", f"coordinate lookup is not keyed by the COORD_PRECISION-rounded coordinate ({[_shT(k_, 80) for k_ in keys_][:2]})", E.where(gt))
     rep.floor("TAINT", 18)
 
     # ---------------------------------------------------------------- SIB
